@@ -222,6 +222,25 @@ def validate_trace(module, cfg, scratch, trace_path, shards=1, timeout=900, env=
                 distinct=sum(r["distinct"] for r, _ in results))
 
 
+def apalache(module, inv, scratch, timeout=900):
+    """Discharge `Init => inv` over unbounded integers with Apalache (length 0). Returns True on NoError;
+    a counterexample or a tool problem is a ToolError (the lemma is about the specification, not the code)."""
+    out_dir = Path(scratch) / f"apalache_{module}"
+    t0 = time.time()
+    try:
+        p = subprocess.run(["apalache-mc", "check", "--init=Init", "--next=Next", f"--inv={inv}", "--length=0",
+                            f"--out-dir={out_dir}", f"{module}.tla"], cwd=SPEC, timeout=timeout,
+                           stdout=subprocess.PIPE, stderr=subprocess.STDOUT, text=True)
+    except subprocess.TimeoutExpired:
+        raise ToolError(f"apalache timed out on {module}")
+    shutil.rmtree(out_dir, ignore_errors=True)
+    log(f"[apalache] {module} {inv} -> rc={p.returncode} {time.time()-t0:.1f}s")
+    if "The outcome is: NoError" not in p.stdout:
+        log(p.stdout[-3000:])
+        raise ToolError(f"apalache did not discharge {inv} of {module}")
+    return True
+
+
 # --------------------------------------------------------------------------- known findings
 
 def load_known(prop):
